@@ -38,6 +38,22 @@ CHECKS = {
          "AppendSample is executed below, at and far beyond capacity on windows of larger buffers; after every call value, position, length, unchanged capacity/base address, alias visibility and every other cell of the storage are compared with the model.",
          "Storage re-read through the verif hook.",
          "6/C04"),
+ "C01": ("canary-arena monitor over all 169 type pairs x 4 transfer functions with generated shapes and input lengths",
+         "Every generated Write/Read/WriteStriped/ReadStriped call and cross-form round trip runs against a stamped parent arena and sentinel-filled caller slices; positions, values, zero fill, returned frame count, untouched cells and unchanged shape are compared with independently computed expectations.",
+         "Values restricted to those exactly representable in both types; oracle arithmetic (C*i+c, integer ceil) independent of the library; arena re-read through the verif hook.",
+         "6/C01"),
+ "C05": ("two-arena monitor with metamorphic single-sample reference over all 169 conversion instantiations",
+         "Every generated conversion call is checked for the common-prefix extent, return value, untouched source/destination remainder and unchanged shapes, and each written position against the same function applied to that sample alone; float->float values against exact preservation / nearest float32.",
+         "Position independence uses the library itself as reference on a 1x1 buffer (numeric correctness is C06-C09's subject).",
+         "6/C05"),
+ "C12": ("bounded-exhaustive and random history exploration against a Go-slice reference model",
+         "Every operation sequence up to depth 3 (quick) / 4 (thorough, plus depth 5 over a reduced alphabet) from every small root shape is re-executed on the real code and compared with the model over all live views and storages; long seeded random histories over larger shapes are checked after every step.",
+         "Append restricted to C03's domain, Slice to valid ranges; growth capacity adopted after constraint checks; storages re-read through the verif hook.",
+         "6/C12"),
+ "C15": ("grid enumeration of shape mismatches under recover() with before/after arena comparison",
+         "Every guarded entry point is called with every mismatching channel-count / slice-count / capacity combination of the grid on stamped operands; the call must panic and both operands, caller slices and the pool must be bit-identical afterwards.",
+         "Panic observed through recover(); operand storage re-read through the verif hook; pool state observed through subsequent Gets.",
+         "6/C15"),
 }
 PENDING = {}
 
